@@ -228,6 +228,14 @@ fn rand_ops(rng: &mut Rng, wild: bool) -> Vec<Op> {
         ops.push(Op::Map(m));
     }
     for _ in 0..n {
+        if rng.chance(1, 6) {
+            // non-ASCII (BMP / astral) text, then a named node on the SAME generated line
+            let pre = *rng.pick(&["こんにちは 👋", "é", "日本語: ", "😀", "{\"value\":\"こんにちは 👋\"} as ", "𝒳𝒴 = ", "ß€ "]);
+            let nm = rand_name(rng, wide_names);
+            ops.push(Op::W(pre.to_string()));
+            ops.push(Op::Wf { chunk: if nm.is_empty() || rng.chance(1, 4) { "Ident".to_string() } else { nm.clone() }, line: rand_pos(rng, big), col: rand_pos(rng, big), file: rng.below(nfiles as usize) as u64, builtin: false, name: Some(nm) });
+            continue;
+        }
         let op = match rng.below(12) {
             0 | 1 => Op::In,
             2 => Op::De,
@@ -335,7 +343,7 @@ impl<'a> Ctx<'a> {
             let case = json!({"kind": "entries", "entries": es});
             if reals[i] != ans[i] {
                 self.rep.fail("K", "entries", &format!("MappingWriter on {es:?}: code {} model {}", reals[i], ans[i]), case.clone());
-                continue;
+                // no `continue`: O judges the REAL output on its own, whatever the model says
             }
             if reals[i].head() == Some("panic") {
                 self.rep.count("entries:panic(debug-build overflow or decreasing line)");
@@ -404,7 +412,7 @@ impl<'a> Ctx<'a> {
                     "names"
                 };
                 self.rep.fail("K", &format!("writer:{part}"), &format!("SourceWriter ops {}: code {} model {}", reqs[i], real_s, model_s), case.clone());
-                continue;
+                // no `continue`: O judges the REAL output on its own, whatever the model says
             }
             let Ok(out) = &reals[i] else {
                 self.rep.count("ops:panic(index out of the file mapper / debug overflow)");
@@ -610,9 +618,19 @@ fn corpus_project_astral() -> Project {
     Project { files, has_import: false }
 }
 
+/// standalone mode prints the runtime document JSON inline; the mapped `TypedDocumentNode<Frag, never>`
+/// follows a non-ASCII string literal on the same generated line
+fn corpus_project_standalone() -> Project {
+    let mut files = BTreeMap::new();
+    files.insert("graphql.config.yaml".into(), config_yaml("standalone-ts-4.0", "./schema.d.ts", None));
+    files.insert("schema/main.graphql".into(), "type Query {\n  me: User!\n}\ntype User {\n  greet(text: String!): String!\n}\n".into());
+    files.insert("ops/q.graphql".into(), "query Q {\n  me { ...F }\n}\nfragment F on User {\n  greet(text: \"こんにちは 👋\")\n}\n".into());
+    Project { files, has_import: false }
+}
+
 fn gen_project(rng: &mut Rng) -> Project {
     let mut files = BTreeMap::new();
-    let mode = *rng.pick(&["with-loader-ts-5.0", "with-loader-ts-4.0", "standalone-ts-4.0"]);
+    let mode = *rng.pick(&["with-loader-ts-5.0", "with-loader-ts-4.0", "standalone-ts-4.0", "standalone-ts-4.0"]);
     let so = *rng.pick(&["./gen/schema.d.ts", "./schema.d.ts", "./a/b/types.d.ts", "./ops/schema.d.ts"]);
     let ro = if rng.coin() { Some(*rng.pick(&["./gen/resolvers.d.ts", "./r.d.ts"])) } else { None };
     files.insert("graphql.config.yaml".to_string(), config_yaml(mode, so, ro));
@@ -626,6 +644,9 @@ fn gen_project(rng: &mut Rng) -> Project {
         for j in 0..ns {
             let t = format!("{}{}", rng.pick(&scalars), if rng.coin() { "!" } else { "" });
             fs.push((format!("s{i}_{j}"), t, None));
+        }
+        if rng.chance(2, 3) {
+            fs.push((format!("g{i}(text: String!)"), "String".to_string(), None));
         }
         if rng.coin() {
             let tgt = rng.below(k);
@@ -643,6 +664,8 @@ fn gen_project(rng: &mut Rng) -> Project {
         query_fields.push((format!("t{i}"), if rng.coin() { format!("T{i}!") } else { format!("[T{i}]") }, Some(i)));
     }
     query_fields.push(("n".into(), "Int".into(), None));
+    query_fields.push(("greeting(text: String!)".into(), "String".into(), None));
+    let lits = ["hello", "こんにちは", "こんにちは 👋", "é", "😀😀", "日本 \\\" q"];
     let astral = rng.chance(1, 3);
     let descr = |rng: &mut Rng, indent: &str, same_line: bool| -> String {
         match rng.below(6) {
@@ -721,8 +744,15 @@ fn gen_project(rng: &mut Rng) -> Project {
         s
     };
     let scalar_sel = |rng: &mut Rng, t: usize, tf: &Vec<Vec<(String, String, Option<usize>)>>| -> Vec<String> {
-        let sc: Vec<&String> = tf[t].iter().filter(|f| f.2.is_none()).map(|f| &f.0).collect();
+        let sc: Vec<&String> = tf[t].iter().filter(|f| f.2.is_none() && !f.0.contains('(')).map(|f| &f.0).collect();
         let mut v = vec![sc[rng.below(sc.len())].clone()];
+        if let Some(g) = tf[t].iter().find(|f| f.0.contains('(')) {
+            if rng.chance(2, 3) {
+                let gname = g.0.split('(').next().unwrap();
+                let alias = if rng.chance(1, 3) { "hello: " } else { "" };
+                v.push(format!("{alias}{gname}(text: \"{}\")", rng.pick(&lits)));
+            }
+        }
         if rng.coin() {
             v.push("__typename".into());
         }
@@ -776,6 +806,7 @@ fn gen_project(rng: &mut Rng) -> Project {
             let (qn, _, tgt) = query_fields[rng.below(query_fields.len())].clone();
             let alias = if rng.chance(1, 4) { format!("a{}: ", rng.below(9)) } else { String::new() };
             match tgt {
+                None if qn.contains('(') => body.push_str(&format!("  {alias}{}(text: \"{}\")\n", qn.split('(').next().unwrap(), rng.pick(&lits))),
                 None => body.push_str(&format!("  {alias}{qn}\n")),
                 Some(t) => {
                     let mut sub = scalar_sel(rng, t, &type_fields);
@@ -1017,6 +1048,43 @@ impl<'a> Ctx<'a> {
                 }
             }
             let Some(segs) = parse_decoded(&ans[3 * i + 1]) else { continue };
+            // generated side, judged against the REAL generated text in UTF-16 units: a named segment and the
+            // range-closing segment after it delimit exactly one whole identifier, which carries the mapped name
+            {
+                let glines: Vec<Vec<u16>> = generated.split('\n').map(|l| l.encode_utf16().collect()).collect();
+                let is_id = |c: u16| is_name_char(c) || c == b'$' as u16;
+                for (si, s) in segs.iter().enumerate() {
+                    let Some(ni) = s.name else { continue };
+                    let name = names.get(ni.max(0) as usize).cloned().unwrap_or_default();
+                    let Some(gl) = glines.get(s.line) else { continue }; // reported by sm.check
+                    if s.col < 0 || s.col as usize > gl.len() {
+                        continue; // reported by sm.check
+                    }
+                    let a = s.col as usize;
+                    let non_ascii_before = gl[..a].iter().any(|c| *c > 127);
+                    let tag = if non_ascii_before { "after-non-ascii-text" } else { "ascii-line" };
+                    let end = match segs.get(si + 1) {
+                        Some(n) if n.line == s.line && n.name.is_none() && n.col >= s.col && (n.col as usize) <= gl.len() => n.col as usize,
+                        _ => {
+                            self.rep.count("note:e2e-named-segment-without-closing-segment-on-its-line");
+                            continue;
+                        }
+                    };
+                    let text = String::from_utf16_lossy(&gl[a..end]);
+                    let whole = end > a && gl[a..end].iter().all(|c| is_id(*c)) && (a == 0 || !is_id(gl[a - 1])) && (end == gl.len() || !is_id(gl[end]));
+                    let carries = text.to_lowercase().contains(&name.to_lowercase());
+                    // a definition keyword of the source (`type`, `enum` …) is mapped from the declaration keywords
+                    let decl_keywords = !text.trim().is_empty() && text.split(' ').all(|w| ["", "export", "declare", "type", "interface", "enum", "const", "namespace"].contains(&w));
+                    if decl_keywords && KEYWORDS.contains(&name.as_str()) {
+                        self.rep.count("e2e:generated-declaration-keyword-checked");
+                        continue;
+                    }
+                    self.rep.count("e2e:generated-identifier-checked");
+                    if !(whole && carries) {
+                        self.rep.fail("O", &format!("e2e:generated-text-not-identifier:{tag}"), &format!("{rel}: named segment {si} ({name:?}) at generated {}:{}..{} covers {text:?} (line continues {:?}) — not exactly the identifier declaring {name:?}", s.line, a, end, String::from_utf16_lossy(&gl[a..gl.len().min(a + 30)])), case.clone());
+                    }
+                }
+            }
             let mut prev_named: Option<(i128, i128, i128, String)> = None;
             let mut nontrivial = false;
             for (si, s) in segs.iter().enumerate() {
@@ -1210,6 +1278,8 @@ fn main() {
     ctx.ops(&[
         (vec![wf("a", 0, 0, 0, None)], true),
         (vec![wf("a", 0, 0, 0, Some("a"))], true),
+        (vec![Op::W("é".into()), wf("N", 0, 0, 0, Some("N"))], true),
+        (vec![Op::W("こんにちは 👋\"} as ".into()), wf("Frag", 7, 0, 0, Some("Frag")), Op::W(", never>;".into())], true),
         (vec![Op::In, Op::W("x\n".into()), wf("y", 1, 2, 0, None)], true),
         (vec![Op::In, Op::W("x\n".into()), wf("y", 1, 2, 0, Some("y"))], true),
         (vec![Op::In, Op::W("x\n".into()), wf("", 1, 2, 0, Some("y")), Op::W("\nz".into())], true),
@@ -1318,6 +1388,7 @@ fn main() {
     if !cli.is_empty() && Path::new(&cli).exists() {
         ctx.project(&corpus_project(), &cli, &scratch, 0);
         ctx.project(&corpus_project_astral(), &cli, &scratch, 0);
+        ctx.project(&corpus_project_standalone(), &cli, &scratch, 0);
         let nproj = args.budget(40, 400);
         for i in 0..nproj {
             let p = gen_project(&mut rng);
